@@ -339,7 +339,13 @@ func buildInlineOverlay(root string, env []string) (map[string][]byte, *InlineNo
 	overlay := map[string][]byte{}
 	inlineSeq, modelSeq = 0, 0
 	renamesBack(root, env, overlay, note)
-	signatureBack(root, env, overlay, note)
+	for i := 0; i < 4; i++ { // one re-shaping may enable the next (a struct handed on to a callee that folds it too)
+		n := len(note.Reshaped)
+		signatureBack(root, env, overlay, note)
+		if len(note.Reshaped) == n {
+			break
+		}
+	}
 	modelLibrary(root, env, overlay, note)
 	for round := 0; round < 3; round++ {
 		dirs := map[string]bool{}
@@ -441,10 +447,46 @@ func signatureBack(root string, env []string, overlay map[string][]byte, note *I
 		pos  int    // toMethod: which parameter is the receiver; toFunc: where the receiver goes
 	}
 	var jobs []job
+	curTypes := map[string]*declInfo{}
+	scanDeclsOverlay(root, overlay, func(d *declInfo) {
+		if d.kind == "type" {
+			curTypes[d.dir+":"+d.name] = d
+		}
+	})
 	for _, c := range present {
 		if baselineFuncs[c.key] {
 			if baselineSpecs[c.key] != c.spec && baselineSpecs[c.key] != "" && samePairs(baselineSpecs[c.key], c.spec) {
 				jobs = append(jobs, job{"perm", c, c.key, 0})
+				continue
+			}
+			// a group of parameters folded into one parameter of a new unexported struct type
+			if baselineSpecs[c.key] != "" && baselineSigs[c.key] != c.sig && resultsOf(baselineSigs[c.key]) == resultsOf(c.sig) {
+				_, bparams, _ := strings.Cut(baselineSpecs[c.key], "|")
+				_, cparams, _ := strings.Cut(c.spec, "|")
+				cps := strings.Split(cparams, ";")
+				found, at := 0, -1
+				for j := range cps {
+					_, t, _ := strings.Cut(cps[j], " ")
+					d := curTypes[c.rel+":"+t]
+					if d == nil || baselineDecls[c.rel+":"+t] != nil || ast.IsExported(t) || d.isIfc || len(d.fields) == 0 {
+						continue
+					}
+					var ts []string
+					for i, p := range cps {
+						if i == j {
+							ts = append(ts, strings.Split(typesOnly(d.fields), ";")...)
+							continue
+						}
+						_, pt, _ := strings.Cut(p, " ")
+						ts = append(ts, pt)
+					}
+					if strings.Join(ts, ";") == typesOf(bparams) && !strings.Contains(typesOnly(d.fields), "•") {
+						found, at = found+1, j
+					}
+				}
+				if found == 1 {
+					jobs = append(jobs, job{"unfold", c, c.key, at})
+				}
 			}
 			continue
 		}
@@ -471,15 +513,29 @@ func signatureBack(root string, env []string, overlay map[string][]byte, note *I
 			for k := 0; k < n && cparams != ""; k++ {
 				ft, others := dropAt(cparams, k)
 				bt := strings.TrimPrefix(ft, "*")
-				bk := dir + ":" + bt + "." + name
-				if bt == "" || !baselineFuncs[bk] || presentKey(present, bk) {
+				if bt == "" {
 					continue
 				}
-				brecv, bparams, _ := strings.Cut(baselineSpecs[bk], "|")
-				_, brt, _ := strings.Cut(brecv, " ")
-				if brt == ft && typesOf(bparams) == others && resultsOf(baselineSigs[bk]) == resultsOf(c.sig) {
-					found++
-					fj = job{"toMethod", c, bk, k}
+				try := func(bk string) {
+					if !baselineFuncs[bk] || presentKey(present, bk) {
+						return
+					}
+					brecv, bparams, _ := strings.Cut(baselineSpecs[bk], "|")
+					_, brt, _ := strings.Cut(brecv, " ")
+					if brt == ft && typesOf(bparams) == others && resultsOf(baselineSigs[bk]) == resultsOf(c.sig) {
+						found++
+						fj = job{"toMethod", c, bk, k}
+					}
+				}
+				try(dir + ":" + bt + "." + name)
+				if found == 0 {
+					// renamed as well: any missing method of that type with this shape (must be the only one)
+					pre := dir + ":" + bt + "."
+					for bk := range baselineFuncs {
+						if strings.HasPrefix(bk, pre) && !strings.Contains(bk[len(pre):], ".") {
+							try(bk)
+						}
+					}
 				}
 			}
 			if found == 1 {
@@ -535,12 +591,16 @@ func signatureBack(root string, env []string, overlay map[string][]byte, note *I
 		rel, _ := filepath.Rel(root, pkgDir(pk))
 		rel = filepath.ToSlash(rel)
 		in := &inliner{pk: pk, note: note, changed: map[*ast.File]bool{}}
+		unfolded := false
 		for _, j := range jobs {
-			if j.c.rel != rel {
+			if j.c.rel != rel || (j.kind == "unfold" && unfolded) {
 				continue
 			}
 			if in.reshape(j.kind, j.c.key, j.base, rel, j.pos) {
 				note.Reshaped = append(note.Reshaped, j.kind+": "+j.c.key+" → "+j.base)
+				if j.kind == "unfold" {
+					unfolded = true // new nodes carry no type information: the next one waits for the next pass
+				}
 			}
 		}
 		for f := range in.changed {
@@ -756,6 +816,9 @@ func (in *inliner) reshape(kind, from, base, rel string, pos int) bool {
 		}
 		decl.Recv = &ast.FieldList{List: []*ast.Field{fields[pos]}}
 		decl.Type.Params.List = append(append([]*ast.Field{}, fields[:pos]...), fields[pos+1:]...)
+		if i := strings.LastIndex(base, "."); i >= 0 && base[i+1:] != decl.Name.Name {
+			decl.Name = ast.NewIdent(base[i+1:]) // the function had been renamed as well
+		}
 		for _, s := range sites {
 			rx := s.call.Args[pos]
 			s.call.Fun = &ast.SelectorExpr{X: &ast.ParenExpr{X: rx}, Sel: ast.NewIdent(decl.Name.Name)}
@@ -825,6 +888,184 @@ func (in *inliner) reshape(kind, from, base, rel string, pos int) bool {
 			fx.s.call.Args = na
 			in.changed[fx.s.file] = true
 		}
+	case "unfold":
+		if pos >= len(fields) || len(fields[pos].Names) != 1 {
+			return false
+		}
+		pobj, _ := info.Defs[fields[pos].Names[0]].(*types.Var)
+		if pobj == nil {
+			return false
+		}
+		st, ok := pobj.Type().Underlying().(*types.Struct)
+		named, isNamed := pobj.Type().(*types.Named)
+		if !ok || !isNamed {
+			return false
+		}
+		// every use of the parameter in the body must be a field selection that is only read or written as a plain variable would be
+		selOf := map[*ast.Ident]*ast.SelectorExpr{}
+		ast.Inspect(decl.Body, func(n ast.Node) bool {
+			if se, ok := n.(*ast.SelectorExpr); ok {
+				if id, ok := se.X.(*ast.Ident); ok {
+					selOf[id] = se
+				}
+			}
+			return true
+		})
+		okUses := true
+		ast.Inspect(decl.Body, func(n ast.Node) bool {
+			if id, ok := n.(*ast.Ident); ok && info.Uses[id] == types.Object(pobj) {
+				if selOf[id] == nil {
+					okUses = false
+				}
+			}
+			return okUses
+		})
+		if !okUses {
+			return false
+		}
+		tstrQ := in.qualifierAt(decl.Pos())
+		tstr := func(t types.Type) string {
+			bad := false
+			s := types.TypeString(t, func(p *types.Package) string {
+				n, ok := tstrQ(p)
+				if !ok {
+					bad = true
+				}
+				return n
+			})
+			if bad {
+				return ""
+			}
+			return s
+		}
+		zero := func(t types.Type, file *ast.File) ast.Expr {
+			ts := tstr(t)
+			if ts == "" {
+				return nil
+			}
+			switch u := t.Underlying().(type) {
+			case *types.Pointer, *types.Slice, *types.Map, *types.Chan, *types.Signature, *types.Interface:
+				return ast.NewIdent("nil")
+			case *types.Basic:
+				lit := "0"
+				switch {
+				case u.Info()&types.IsString != 0:
+					lit = `""`
+				case u.Info()&types.IsBoolean != 0:
+					lit = "false"
+				}
+				e, err := parser.ParseExpr(ts + "(" + lit + ")")
+				if err != nil {
+					return nil
+				}
+				zeroPos(e)
+				return e
+			default:
+				e, err := parser.ParseExpr(ts + "{}")
+				if err != nil {
+					return nil
+				}
+				zeroPos(e)
+				return e
+			}
+		}
+		// call sites first (nothing is changed before everything is known to work)
+		type siteArgs struct {
+			s    site
+			args []ast.Expr
+		}
+		var rewrites []siteArgs
+		for _, s := range sites {
+			if len(s.call.Args) != len(fields) {
+				return false
+			}
+			a := unparen(s.call.Args[pos])
+			var per []ast.Expr
+			switch x := a.(type) {
+			case *ast.CompositeLit:
+				if tv, ok := info.Types[x]; !ok || !types.Identical(tv.Type, named) {
+					return false
+				}
+				per = make([]ast.Expr, st.NumFields())
+				for i, el := range x.Elts {
+					if kv, isKV := el.(*ast.KeyValueExpr); isKV {
+						kid, ok := kv.Key.(*ast.Ident)
+						if !ok {
+							return false
+						}
+						idx := -1
+						for fi := 0; fi < st.NumFields(); fi++ {
+							if st.Field(fi).Name() == kid.Name {
+								idx = fi
+							}
+						}
+						if idx < 0 || !in.pure(kv.Value) {
+							return false
+						}
+						per[idx] = kv.Value
+					} else {
+						if i >= len(per) || !in.pure(el) {
+							return false
+						}
+						per[i] = el
+					}
+				}
+				for fi := range per {
+					if per[fi] == nil {
+						if per[fi] = zero(st.Field(fi).Type(), s.file); per[fi] == nil {
+							return false
+						}
+					}
+				}
+			case *ast.Ident:
+				if v, ok := info.Uses[x].(*types.Var); !ok || !types.Identical(v.Type(), named) {
+					return false
+				}
+				for fi := 0; fi < st.NumFields(); fi++ {
+					per = append(per, &ast.SelectorExpr{X: ast.NewIdent(x.Name), Sel: ast.NewIdent(st.Field(fi).Name())})
+				}
+			default:
+				return false
+			}
+			na := append([]ast.Expr{}, s.call.Args[:pos]...)
+			na = append(na, per...)
+			na = append(na, s.call.Args[pos+1:]...)
+			rewrites = append(rewrites, siteArgs{s, na})
+		}
+		// the declaration
+		var nf []*ast.Field
+		names := make([]string, st.NumFields())
+		for fi := 0; fi < st.NumFields(); fi++ {
+			ts := tstr(st.Field(fi).Type())
+			te, err := parser.ParseExpr(ts)
+			if ts == "" || err != nil {
+				return false
+			}
+			zeroPos(te)
+			names[fi] = fmt.Sprintf("sb%d_%s", pos, st.Field(fi).Name())
+			nf = append(nf, &ast.Field{Names: []*ast.Ident{ast.NewIdent(names[fi])}, Type: te})
+		}
+		nl := append([]*ast.Field{}, fields[:pos]...)
+		nl = append(nl, nf...)
+		nl = append(nl, fields[pos+1:]...)
+		decl.Type.Params.List = nl
+		// call sites first: a recursive call's arguments are part of the body rewritten next
+		for _, rw := range rewrites {
+			rw.s.call.Args = rw.args
+			in.changed[rw.s.file] = true
+		}
+		astutil.Apply(decl.Body, nil, func(c *astutil.Cursor) bool {
+			if se, ok := c.Node().(*ast.SelectorExpr); ok {
+				if id, ok := se.X.(*ast.Ident); ok && info.Uses[id] == types.Object(pobj) {
+					for fi := 0; fi < st.NumFields(); fi++ {
+						if st.Field(fi).Name() == se.Sel.Name {
+							c.Replace(ast.NewIdent(names[fi]))
+						}
+					}
+				}
+			}
+			return true
+		})
 	default:
 		return false
 	}
